@@ -661,8 +661,11 @@ fn loader_cases(outdir: &std::path::Path, rng: &mut Rng, histories: &[Vec<Migrat
             continue;
         }
         let mut results: Vec<Vec<u32>> = vec![];
+        let mut results_macro: Vec<Vec<u32>> = vec![];
         for variant in 0..2 {
-            let dir = base.join(format!("h{}_{}", hi, variant));
+            // <root>/migrations is the default migrations directory of a project rooted at <root>
+            let root = base.join(format!("h{}_{}", hi, variant));
+            let dir = root.join("migrations");
             std::fs::create_dir_all(&dir).unwrap();
             let mut order: Vec<usize> = (0..h.len()).collect();
             if variant == 1 {
@@ -697,10 +700,26 @@ fn loader_cases(outdir: &std::path::Path, rng: &mut Rng, histories: &[Vec<Migrat
                     let _ = writeln!(side, "{}", json!({"history": hi, "variant": variant, "error": e.to_string()}));
                 }
             }
+            // the compile-time loader of vespertide_migration! (migrations.rs load_migrations_from_dir): same files, project root given
+            match vespertide_loader::load_migrations_from_dir(Some(root.clone())) {
+                Ok(loaded) => {
+                    let versions: Vec<u32> = loaded.iter().map(|p| p.version).collect();
+                    let dir_versions: Vec<u32> = in_dir_order.iter().map(|p| p.version).collect();
+                    cases.push(format!("({}, {})", dir_versions.gs(), versions.gs()));
+                    results_macro.push(versions);
+                }
+                Err(e) => {
+                    let _ = writeln!(side, "{}", json!({"history": hi, "variant": variant, "macro_error": e.to_string()}));
+                }
+            }
         }
-        let ascending = results.iter().all(|v| v.windows(2).all(|w| w[0] < w[1]));
+        let asc = |rs: &Vec<Vec<u32>>| rs.iter().all(|v| v.windows(2).all(|w| w[0] < w[1]));
+        let ascending = asc(&results);
         let same = results.len() == 2 && results[0] == results[1];
+        let ascending_macro = asc(&results_macro);
+        let same_macro = results_macro.len() == 2 && results_macro[0] == results_macro[1] && (results.is_empty() || results_macro[0] == results[0]);
         let _ = writeln!(side, "{}", json!({"history": hi, "n": h.len(), "ok": ascending && same, "ascending": ascending, "same": same, "loaded": results,
+            "ok_macro": ascending_macro && same_macro, "loaded_macro": results_macro,
             "plans": h.iter().map(|p| plan_json(p)).collect::<Vec<_>>()}));
     }
     let _ = std::fs::remove_dir_all(&base);
